@@ -750,4 +750,43 @@ def followerRunA (cfg : Conf) (src : Nat) : Node → List AppendMsg → Except E
 def followerRun (cfg : Conf) (src : Nat) (s : Node) (msgs : List Msg) : Except Err (Node × List Out) :=
   followerRunA cfg src s (msgs.filterMap toAppendMsg)
 
+/-! ## several send runs, each answered by the follower (repair D62: probe, then pipeline) -/
+
+/-- `next_node_idx` of the last success acknowledgement among a follower's outputs -/
+def ackNext : List Out → Option Nat
+  | [] => none
+  | o :: rest =>
+    match ackNext rest with
+    | some n => some n
+    | none =>
+      match o with
+      | .send _ (.nextNodeIdx n _ true _) => some n
+      | _ => none
+
+/-- leader side of a success `next_node_idx` (handler in `__onMessageReceived`): `matchIndex` is raised to
+`next_node_idx - 1` and `nextIndex` follows; otherwise both stay (success acknowledgements of one run carry
+increasing indices, so the last one decides) -/
+def onAck (next m : Nat) (ack : Option Nat) : Nat × Nat :=
+  match ack with
+  | some n => if m < n - 1 then (n, n - 1) else (next, m)
+  | none => (next, m)
+
+/-- `k` rounds of: one `__sendAppendEntries` run to the destination (full, no cut-off), the follower consumes the
+messages in order, the leader processes the acknowledgement.  Returns the follower, the leader's
+`nextIndex` / `matchIndex` for it, and the batches sent in all rounds. -/
+def deliverRounds (cfg : Conf) (src : Nat) (c : SendCfg) (log : List Entry) :
+    (k : Nat) → (next m : Nat) → Node → Except Err (Node × Nat × Nat × List Batch)
+  | 0, next, m, s => .ok (s, next, m, [])
+  | k + 1, next, m, s =>
+    match sendOne { c with matchIdx := some m } log next [] none with
+    | .error e => .error e
+    | .ok r =>
+      match followerRun cfg src s r.msgs with
+      | .error e => .error e
+      | .ok (s', o) =>
+        let (next', m') := onAck r.next m (ackNext o)
+        match deliverRounds cfg src c log k next' m' s' with
+        | .error e => .error e
+        | .ok (s2, n2, m2, bs) => .ok (s2, n2, m2, r.batches ++ bs)
+
 end PSO.NodeSend
